@@ -25,8 +25,13 @@ def try_harness(tier):
                    note='body/handlers/finally: abstract children, each returns or throws one of 6 kinds; typed clauses match per oracle bit')
 
 def harnesses(tier):
-    return [try_harness(tier)]
+    from props import C20, C09
+    hs = [try_harness(tier)]
+    w = C20.eval_wrapper_harness(); w.name = 'X2.eval_wrapper'; hs.append(w)          # every node evaluation: exceptions leave as the same object
+    for k in (7, 8):                                                                   # For and Switch nodes: exceptions of any child leave unchanged
+        h = C09.node_harness(k); h.name = 'X3.' + h.name[2:]; hs.append(h)
+    return hs
 
 ASSUMPTIONS = ['children are abstract: eval() of a child returns a value or throws eval_error / runtime_error / out_of_range / std::exception / Boxed_Value / a foreign type',
                'Param_Types::match is an oracle; Scope push/pop are counters (their real code: C09)', 'exception objects are not destroyed by the model (no double-free claims)']
-OUTSIDE = ['propagation through library callbacks (for_each etc.) beyond node level', 'std::function wrappers']
+OUTSIDE = ['propagation through dispatch (Proxy_Function / Dynamic_Proxy_Function / std::function wrappers) and library callbacks beyond node level', 'Fun_Call turning dispatch_error into eval_error']
